@@ -14,3 +14,8 @@ func init() {
 		"consensus.State.AncestorDepth",
 	)
 }
+
+func init() {
+	// C01 — "miner fees reappear exactly in the miner payout": the payout rule itself, loops included
+	tcodeRoots = append(tcodeRoots, "consensus.validateMinerPayouts")
+}
